@@ -466,11 +466,22 @@ class Assign(Statement, AssignBase):
         return result
 
     def map_expressions(self, mapper, include_lhs=True):
+        def map_loop_ident(ident):
+            # The loop variable is assigned by this statement. Rename it along
+            # with its uses in the expressions.
+            if not include_lhs:
+                return ident
+
+            from pymbolic.primitives import Variable
+            new_ident = mapper(Variable(ident))
+            assert isinstance(new_ident, Variable)
+            return new_ident.name
+
         return (super()
                 .map_expressions(mapper, include_lhs=include_lhs)
                 .copy(
                     loops=[
-                        (ident, mapper(start), mapper(end))
+                        (map_loop_ident(ident), mapper(start), mapper(end))
                         for ident, start, end in self.loops]))
 
     def __str__(self):
